@@ -849,7 +849,7 @@ class BMPPublicSendScp:
 class MachineControllerInit:
     """a controller starts from its own arguments only: one connection, to exactly the host, port, number of tries and timeout given,
     filed as the connection of unknown position (what the context stack starts from: contract MachineControllerInitialContext); buffer size, window size, root chip and machine dimensions all UNKNOWN (to be asked of
-    this controller's own machine), the fill-id counter at 0, and the struct dictionary the one given"""
+    this controller's own machine), and the struct dictionary the one given"""
     properties = ("C18", "C17", "C06")
     params = dict(self=TRec("MachineController"), initial_host=TInt(), scp_port=TInt(1, 65535), boot_port=TInt(1, 65535), n_tries=TInt(1, 100),
                   timeout=TReal(), structs=TRec("Dict", ident=TInt(0, 9)), initial_context=ARGS)
@@ -867,7 +867,7 @@ class MachineControllerInit:
                 and self_post.initial_host == initial_host and self_post.scp_port == scp_port and self_post.boot_port == boot_port
                 and self_post.n_tries == n_tries and self_post.timeout == timeout
                 and self_post._scp_data_length is None and self_post._window_size is None and self_post._root_chip is None
-                and self_post._width is None and self_post._height is None and self_post._nn_id == 0
+                and self_post._width is None and self_post._height is None
                 and self_post.structs.ident == structs.ident)
 
 
